@@ -36,11 +36,13 @@ RMin(p, q)  == IF RLt(q, p) THEN q ELSE p
 RIsZero(p)  == p[1] = 0
 RFrac(n, d) == Norm(n, d)
 
-RECURSIVE RSumSeq(_)
-RSumSeq(s) == IF s = <<>> THEN RZero ELSE RAdd(Head(s), RSumSeq(Tail(s)))
+RECURSIVE RSumFrom(_, _)
+RSumFrom(s, i) == IF i > Len(s) THEN RZero ELSE RAdd(s[i], RSumFrom(s, i + 1))
+RSumSeq(s) == RSumFrom(s, 1)
 
-RECURSIVE ISumSeq(_)
-ISumSeq(s) == IF s = <<>> THEN 0 ELSE Head(s) + ISumSeq(Tail(s))
+RECURSIVE ISumFrom(_, _)
+ISumFrom(s, i) == IF i > Len(s) THEN 0 ELSE s[i] + ISumFrom(s, i + 1)
+ISumSeq(s) == ISumFrom(s, 1)
 
 RECURSIVE RMaxSeq(_)
 RMaxSeq(s) == IF Len(s) = 1 THEN s[1] ELSE RMax(s[1], RMaxSeq(Tail(s)))
